@@ -118,6 +118,23 @@ def core_events(env):
     return out
 
 
+def medium_events(env, tier):
+    """full menu with every other argument-shape statement removed"""
+    out = []
+    k = 0
+    for ev in events(env, tier):
+        if ev[0] == "stmt" and ev[1] in ("G", "H", "H2") and ev[2] is not None and (ev[2] or ev[3]):
+            k += 1
+            if k % 2:
+                continue
+        out.append(ev)
+    return out
+
+
+def menu_events(env, tier, menu):
+    return events(env, tier) if menu == "full" else (medium_events(env, tier) if menu == "medium" else core_events(env))
+
+
 def _subtree(task):
     """enumerate every extension of `hist` by up to `depth` further events; check every state"""
     import hashlib
@@ -148,7 +165,7 @@ def _subtree(task):
                     viols.add(r[0], {"text": text, "ast": repr(sc)}, r[1])
         if d > 0:
             env = {it[2] for it in h if it[0] in ("decl", "arr")}
-            evs = events(env, tier) if menu == "full" else core_events(env)
+            evs = menu_events(env, tier, menu)
             for ev in evs:
                 stack.append((h + [ev], d - 1))
     return n, ood, agree, hashes, viols.records(), sample
@@ -163,7 +180,7 @@ def run(ctx):
     if ctx.quick:
         phases = [("first", 2, "full"), ("all", 1, "full"), ("all", 2, "core"), ("first", 3, "core")]
     else:
-        phases = [("first", 3, "full"), ("all", 2, "full"), ("all", 3, "core")]
+        phases = [("first", 3, "medium"), ("all", 2, "full"), ("all", 3, "core"), ("first", 4, "core")]
     stats = collections.Counter()
     allv = common.Violations(keep=10)
     distinct = set()
@@ -174,13 +191,13 @@ def run(ctx):
         metas = order if which == "all" else (order[:2] if which == "first2" else order[:1])
         tasks = []
         for mi in metas:
-            evs0 = events(set(), ctx.tier) if menu == "full" else core_events(set())
+            evs0 = menu_events(set(), ctx.tier, menu)
             for ev in evs0:
-                if depth >= 3 and menu == "full":
+                if depth >= 3 and menu in ("full", "medium"):
                     # smaller tasks: one per two-event prefix (the one-event prefix itself is checked once, here)
                     env1 = {ev[2]} if ev[0] in ("decl", "arr") else set()
                     tasks.append((mi, [ev], 0, ctx.tier, menu))
-                    for ev2 in events(env1, ctx.tier):
+                    for ev2 in menu_events(env1, ctx.tier, menu):
                         tasks.append((mi, [ev, ev2], depth - 2, ctx.tier, menu))
                 else:
                     tasks.append((mi, [ev], depth - 1, ctx.tier, menu))
